@@ -46,6 +46,7 @@ RelTouched(ev) == (SetOf(ev.add) \cup SetOf(ev.rem)) \cap w.rel # {} \/ DOMAIN F
 (*   foot : the entities the operation is allowed to change                *)
 (***************************************************************************)
 BVals(ev, S, C) ==
+    IF ev.mode = "val" THEN [x \in S |-> RestrictTo(Fn(ev.vals), C)] ELSE
     [x \in S |-> IF \E i \in DOMAIN ev.bvals : ev.bvals[i].e = x
                  THEN Fn(ev.bvals[CHOOSE i \in DOMAIN ev.bvals : ev.bvals[i].e = x].v)
                  ELSE [c \in C |-> 0]]
@@ -104,6 +105,12 @@ Expect(ev) ==
             IF ev.f \notin DOMAIN w.regF THEN R(TRUE, DoRegF(w, ev.f, flt), {}) ELSE R(FALSE, w, {})
       [] ev.op = "UnregF" ->
             IF ev.f \in DOMAIN w.regF THEN R(TRUE, DoUnregF(w, ev.f), {}) ELSE R(FALSE, w, {})
+      [] ev.op = "DumpLoad" ->   \* dump, load into a second world, then ev.n creations (no components) in both worlds
+            IF Locked(w) THEN [def |-> FALSE, pre |-> TRUE, w2 |-> w, foot |-> {}]
+            ELSE IF ev.panic THEN R(TRUE, w, {})
+            ELSE LET RECURSIVE Go(_, _)
+                     Go(ww, i) == IF i > Len(ev.ret) THEN ww ELSE Go(DoNew(ww, ev.ret[i], {}, EmptyFn, EmptyFn), i + 1)
+                 IN R(TRUE, Go(w, 1), SetOf(ev.ret))
       [] ev.op = "QOpen" ->
             IF ev.q \in DOMAIN w.open \/ ~FilterOK(w, flt) \/ ~TargetsOK(w, FltTargets(flt)) \/ Cardinality(DOMAIN w.open) >= 63
             THEN [def |-> FALSE, pre |-> TRUE, w2 |-> w, foot |-> {}]
@@ -140,6 +147,7 @@ ExpCbs(ev, x) ==
     IN
     CASE ev.op = "New" -> CbsNew(w, ev.ret[1], add, etg)
       [] ev.op = "NewBatch" -> UNION {CbsNew(w, ev.ret[i], add, etg) : i \in DOMAIN ev.ret}
+      [] ev.op = "DumpLoad" -> UNION {CbsNew(w, ev.ret[i], {}, EmptyFn) : i \in DOMAIN ev.ret}
       [] ev.op = "Copy" -> CbsCopy(w, ev.ret[1], e)
       [] ev.op = "Add" -> CbsExchange(w, e, add, {}, etg)
       [] ev.op = "Remove" -> CbsExchange(w, e, {}, rem, EmptyFn)
@@ -167,7 +175,7 @@ CbWorld(ev, x, ph) ==
 (***************************************************************************)
 (* Comparison of one op event with the expectation: the set of violations. *)
 (***************************************************************************)
-CreatedBy(ev) == IF ev.op \in {"New", "NewBatch", "Copy"} /\ ~ev.panic THEN ev.ret ELSE <<>>
+CreatedBy(ev) == IF ev.op \in {"New", "NewBatch", "Copy", "DumpLoad"} /\ ~ev.panic THEN ev.ret ELSE <<>>
 
 CheckOp(ev) ==
     LET x   == Expect(ev)
@@ -178,7 +186,7 @@ CheckOp(ev) ==
         lockMis == Locked(w) /\ ev.op # "Set"
         vPanic ==
             IF x.pre /\ ev.panic
-            THEN (IF ev.op \in {"QOpen", "QNext", "QClose"} THEN {}
+            THEN (IF ev.op \in {"QOpen", "QNext", "QClose", "DumpLoad"} THEN {}
                   ELSE IF Locked(w) THEN {V("C07.read-failed", ev.op)}   \* allowed on a locked world, but failed
                   ELSE {V(IF RelTouched(ev) THEN "C04.valid-call-panicked" ELSE "C01.valid-call-panicked", ev.op)})
             ELSE IF ~x.pre /\ ~ev.panic
@@ -238,7 +246,7 @@ CheckOp(ev) ==
         isBatchOp == isBatch \/ ev.op = "NewBatch"
         vC09 == UNION {
                   LET cb == ev.cbs[i] ph == PhOf(i) cw == CbWorld(ev, x, ph) IN
-                  IF ph = "none" THEN {}
+                  IF ph = "none" \/ ev.op = "DumpLoad" THEN {}
                   ELSE (IF cb.panic THEN {V("C09.callback-panicked", cb.e)} ELSE {})
                        \cup (IF cb.e # Zero /\ ~cb.alive THEN {V("C09.not-alive", cb.e)} ELSE {})
                        \cup (IF cb.e # Zero /\ cb.seen # 1 THEN {V("C09.seen-n-times", <<cb.e, cb.seen>>)} ELSE {})
@@ -270,8 +278,17 @@ CheckOp(ev) ==
                               LET tc == ev.caps[j] mx == IF tc.mincap > Pow2(tc.size) THEN tc.mincap ELSE Pow2(tc.size) IN
                               tc.cap < tc.size \/ (ev.ok /\ tc.cap > mx)}}
                 ELSE {}
+        \* C17: liveness of every handle in the loaded world, next handles, codecs
+        vDump == IF ev.op = "DumpLoad" /\ x.def /\ ~ev.panic
+                 THEN (IF SetOf(ev.alive2) # Alive(w) THEN {V("C17.alive", ev.alive2)} ELSE {})
+                      \cup (IF ev.ret # ev.ret2 THEN {V("C17.next-handle", <<ev.ret, ev.ret2>>)} ELSE {})
+                      \cup {V("C17.codec", ev.codec[i]) : i \in {j \in DOMAIN ev.codec :
+                                ev.codec[j][2] # ev.codec[j][1] \/ ev.codec[j][3] # ev.codec[j][1]}}
+                      \cup (IF ev.binok # <<8>> THEN {V("C17.malformed-accepted", ev.binok)} ELSE {})
+                 ELSE IF ev.op = "DumpLoad" /\ x.def /\ ev.panic THEN {V("C17.load-panicked", ev.msg)}
+                 ELSE {}
     IN [def |-> x.def, next |-> exp,
-        vs |-> IF x.def THEN vPanic \cup vDup \cup vAlive \cup vCount \cup vEnt \cup vLock \cup vCb \cup vC08 \cup vC09 \cup vQ \cup vShr ELSE {}]
+        vs |-> IF x.def THEN vPanic \cup vDup \cup vAlive \cup vCount \cup vEnt \cup vLock \cup vCb \cup vC08 \cup vC09 \cup vQ \cup vShr \cup vDump ELSE {}]
 
 (***************************************************************************)
 (* Probes: a query / Count / EntityAt battery run by the executor.         *)
@@ -305,6 +322,50 @@ CheckProbe(ev) ==
        ELSE vMissing \cup vExtra \cup vDupl \cup vData \cup vCount \cup vAt \cup vPanic \cup vTwin
 
 (***************************************************************************)
+(* Statistics (C19): the algebra of one Stats() record against the world   *)
+(* of the specification, and equality with the statistics of a twin world  *)
+(* that replayed the same history and was asked only once.                 *)
+(***************************************************************************)
+RECURSIVE SumSeq(_)
+SumSeq(q) == IF q = <<>> THEN 0 ELSE Head(q) + SumSeq(Tail(q))
+
+CheckStats(ev) ==
+    LET s == ev.stats
+        A == s.Archs
+        sizes == Fn(s.Sizes)
+        aliveWith(C) == Cardinality({e \in Alive(w) : CompsOf(w, e) = C})
+        mpe(C) == 8 + SumSeq([i \in 1..Len(C) |-> IF C[i] \in DOMAIN sizes THEN sizes[C[i]] ELSE 0])
+        T(i) == A[i].tables
+        bad == {<<"used", s.Used>> : x \in {1} \cap (IF s.Used = Cardinality(Alive(w)) THEN {} ELSE {1})}
+            \cup {<<"total", s.Total>> : x \in {1} \cap (IF s.Total = s.Used + s.Recycled /\ s.Total <= s.Capacity THEN {} ELSE {1})}
+            \cup {<<"sum-arch-size", SumSeq([i \in DOMAIN A |-> A[i].size])>> :
+                     x \in {1} \cap (IF SumSeq([i \in DOMAIN A |-> A[i].size]) = s.Used THEN {} ELSE {1})}
+            \cup {<<"arch-size", i>> : i \in {j \in DOMAIN A : A[j].size # SumSeq([k \in DOMAIN T(j) |-> T(j)[k][1]])}}
+            \cup {<<"arch-vs-world", i>> : i \in {j \in DOMAIN A : A[j].size # aliveWith(SetOf(A[j].comps))}}
+            \cup {<<"duplicate-archetype", i>> : i \in {j \in DOMAIN A : \E k \in DOMAIN A : k < j /\ SetOf(A[k].comps) = SetOf(A[j].comps)}}
+            \cup {<<"missing-archetype", C>> : C \in {CompsOf(w, e) : e \in Alive(w)} \ {SetOf(A[j].comps) : j \in DOMAIN A}}
+            \cup {<<"table-size-cap", i>> : i \in {j \in DOMAIN A : \E k \in DOMAIN T(j) : T(j)[k][1] > T(j)[k][2]}}
+            \cup {<<"arch-capacity", i>> : i \in {j \in DOMAIN A :
+                     LET c == SumSeq([k \in DOMAIN T(j) |-> T(j)[k][2]]) IN
+                     A[j].capacity < c \/ (A[j].freetables = 0 /\ A[j].capacity # c)}}
+            \cup {<<"mem-per-entity", i>> : i \in {j \in DOMAIN A : A[j].mpe # mpe(A[j].comps)}}
+            \cup {<<"table-memory", i>> : i \in {j \in DOMAIN A : \E k \in DOMAIN T(j) :
+                     T(j)[k][3] # T(j)[k][2] * A[j].mpe \/ T(j)[k][4] # T(j)[k][1] * A[j].mpe}}
+            \cup {<<"arch-memory", i>> : i \in {j \in DOMAIN A :
+                     \/ A[j].memoryused # SumSeq([k \in DOMAIN T(j) |-> T(j)[k][4]])
+                     \/ A[j].memory # A[j].capacity * A[j].mpe}}
+            \cup {<<"numrel", i>> : i \in {j \in DOMAIN A : A[j].numrel # Cardinality(SetOf(A[j].comps) \cap w.rel)}}
+            \cup {<<"world-memory-used", s.MemoryUsed>> : x \in {1} \cap
+                     (IF s.MemoryUsed = 16 * s.Used + SumSeq([i \in DOMAIN A |-> A[i].memoryused]) THEN {} ELSE {1})}
+            \cup {<<"world-memory", s.Memory>> : x \in {1} \cap
+                     (IF s.Memory >= 16 * s.Total + SumSeq([i \in DOMAIN A |-> A[i].memory]) THEN {} ELSE {1})}
+            \cup {<<"filters", s.CachedFilters>> : x \in {1} \cap (IF s.CachedFilters = Cardinality(DOMAIN w.regF) THEN {} ELSE {1})}
+            \cup {<<"observers", s.Observers>> : x \in {1} \cap (IF s.Observers = Cardinality(DOMAIN w.obs) THEN {} ELSE {1})}
+            \cup {<<"locked", s.Locked>> : x \in {1} \cap (IF s.Locked = Locked(w) THEN {} ELSE {1})}
+    IN {V("C19.algebra", b) : b \in bad}
+       \cup (IF ev.stats # ev.twin THEN {V("C19.incremental", <<"incremental and one-shot statistics differ">>)} ELSE {})
+
+(***************************************************************************)
 (* The monitor's state machine.                                            *)
 (***************************************************************************)
 TInit == /\ l = 1 /\ w = NewWorld({}) /\ skip = TRUE /\ viol = <<>> /\ seqno = 0
@@ -326,6 +387,9 @@ TNext ==
          [] ev.k = "probe" /\ ~skip ->
                 LET vs == CheckProbe(ev) IN
                 /\ viol' = viol \o SetToSeq(vs)
+                /\ UNCHANGED <<w, skip, seqno>>
+         [] ev.k = "stats" /\ ~skip ->
+                /\ viol' = viol \o SetToSeq(CheckStats(ev))
                 /\ UNCHANGED <<w, skip, seqno>>
          [] OTHER -> UNCHANGED <<w, skip, viol, seqno>>
 
